@@ -458,6 +458,7 @@ func c15Bytes(r *core.Result, rng *rand.Rand, kind string, geom int) {
 			}
 			if rng.Intn(2) == 0 {
 				ref.Stats = &oracle.IdxStats{Beg: first, End: last, Mapped: uint64(rng.Intn(1000)), Unmapped: uint64(rng.Intn(50))}
+				ref.StatsAt = rng.Intn(len(ref.Bins) + 2) // anywhere among the bins, as other writers do
 			}
 			if kind != "csi" {
 				o := first
